@@ -57,7 +57,10 @@ def arm_paths(ctx, d, arm, res):
     s = Sym(d.body)
     s.run(start=d.arms[arm], env=env)
     res.paths += len(s.paths)
-    bad = [p for p in s.paths if p.end not in ('return', 'await-pending')]
+    # a loop inside an arm is fine as long as it does not talk to the socket (a loop that builds the reply's lists)
+    bad = [p for p in s.paths if p.end not in ('return', 'await-pending') and not (p.end == 'loop' and not sends_of(p))]
+    for p in s.paths:
+        p.sym = s      # the enumeration a path belongs to (for loop-built values)
     return s.complete_paths(), bad
 
 
@@ -152,11 +155,11 @@ def rule_one_reply(ctx, res, d, exact_values=False):
                 kind, inner = body_of_message(m)
                 res.check(kind in ('Response', 'Error'), 'TABLE', anchor, 'reply body is a Response or an Error', site=site, detail=str(kind), key='kind:' + arm)
                 if kind == 'Response' and isinstance(inner, tuple) and inner[0] == 'agg':
-                    check_response_fields(ctx, res, arm, anchor, inner, site, p, exact_values)
+                    check_response_fields(ctx, res, arm, anchor, inner, site, p, exact_values, sym=getattr(p, 'sym', None))
         res.check(n_ok >= 1, 'COUNT', anchor, 'the arm has a successful path', key='has-ok-path:' + arm)
 
 
-def check_response_fields(ctx, res, arm, anchor, r, site, p, exact_values=False):
+def check_response_fields(ctx, res, arm, anchor, r, site, p, exact_values=False, sym=None):
     f = r[2]
     rid = strip_transparent(f.get('id'))
     res.check(is_param(root_of(rid)) and root_of(rid)[1] == 1 and field_chain(rid) == ['this_node_id'], 'FLOW', anchor,
@@ -177,7 +180,11 @@ def check_response_fields(ctx, res, arm, anchor, r, site, p, exact_values=False)
         src = strip_transparent(tok[2].get('0')) if ok else None
         ok = ok and src[0] == 'call' and src[1] == 'token::TokenStore::checkout'
         res.check(ok, 'FLOW', anchor, 'get_peers reply carries Some(token) taken from TokenStore::checkout', site=site, detail=fmt(tok)[:200], key='token:' + arm)
-        # values = find_items(&g.info_hash).filter(family).collect()
+        # values = find_items(&g.info_hash).filter(family).collect()   -- or the same thing written as a loop
+        if isinstance(strip_transparent(vals), tuple) and strip_transparent(vals)[0] == 'loopvar' and sym is not None:
+            check_values_loop(ctx, res, arm, anchor, strip_transparent(vals), sym, site, exact_values)
+            check_nodes_from_closest(ctx, res, arm, anchor, n4, n6, site, 'info_hash')
+            return
         pl = pipeline(strip_transparent(vals) if vals[0] != 'call' else vals)
         names = [x[0] for x in pl]
         src = pl[0][1]
@@ -190,6 +197,57 @@ def check_response_fields(ctx, res, arm, anchor, r, site, p, exact_values=False)
         if ok:
             check_values_filter(ctx, res, anchor, pl[1][1], site)
         check_nodes_from_closest(ctx, res, arm, anchor, n4, n6, site, 'info_hash')
+
+
+def check_values_loop(ctx, res, arm, anchor, lv, sym, site, exact_values):
+    """`for c in find_items(hash) { if same_family(c, requester) { values.push(c) } }` - the loop form of the pipeline"""
+    try:
+        st = lib.loop_stream(sym, lv)
+    except Lost as e:
+        res.bad('FLOW', anchor, 'values = find_items(query info_hash) through the family filter', site=site, detail='loop form: %s' % e, key='values:' + arm)
+        return
+    src = st['src']
+    ok = (src[0] == 'call' and src[1] == 'storage::AnnounceStorage::find_items'
+          and field_chain(strip_transparent(src[2][1]))[-1:] == ['info_hash'] and is_param(root_of(strip_transparent(src[2][1])), 'message'))
+    if exact_values and st['cap'] is not None:
+        ok = False
+    res.check(ok, 'FLOW', anchor, 'values = find_items(query info_hash) through the family filter' + (' and nothing else (exactness)' if exact_values else ''), site=site,
+              detail='loop over ' + fmt(src)[:160], key='values:' + arm)
+    elem = st['elem']
+    is_elem = st['is_elem']
+
+    def classify(lit, c):
+        rel, a, b2, truth = lit
+        if rel == 'bool' and isinstance(a, tuple) and a[0] == 'call' and a[1] in ('std::net::SocketAddr::is_ipv4', 'std::net::SocketAddr::is_ipv6') and truth is not None:
+            x = strip_transparent(a[2][0])
+            which = 'val' if is_elem(x) else 'req' if (is_param(x) and x[1] == 3) else None
+            if which:
+                v4 = a[1].endswith('is_ipv4') == bool(truth)
+                return (which, {'V4'} if v4 else {'V6'})
+        if rel == 'variant':
+            x = strip_transparent(a)
+            which = 'val' if is_elem(x) else 'req' if (is_param(x) and x[1] == 3) else None
+            if which:
+                fam = {'V4': 0, 'V6': 1}
+                if isinstance(b2, tuple) and b2[0] == 'not':
+                    return (which, {k for k in fam if fam[k] not in b2[1]})
+                return (which, {k for k in fam if fam[k] == b2})
+        raise Lost('values loop: unrecognised condition %s %s' % (rel, fmt(a)))
+
+    class _Row:
+        def __init__(self, conds):
+            self.conds = conds
+    try:
+        rows = []
+        for lits, pushed, p in st['rows']:
+            t = lib.Table.build([_Row(lits)], classify, lambda _p, pushed=pushed: ('skip' if pushed is None else 'push' if is_elem(pushed) else 'push-other'))
+            rows.extend(t.rows)
+        tab = lib.Table(rows)
+        bad, n = tab.compare({'req': ['V4', 'V6'], 'val': ['V4', 'V6']}, lambda v: 'push' if v['req'] == v['val'] else 'skip')
+        res.check(not bad, 'TABLE', anchor, 'values filter keeps exactly the peers of the requester\'s address family', site=site,
+                  detail='; '.join('%s -> got %s want %s' % (v, g, e) for v, g, e in bad[:4]), key='values-filter-loop')
+    except Lost as e:
+        res.bad('TABLE', anchor, 'values filter keeps exactly the peers of the requester\'s address family', site=site, detail=str(e), key='values-filter-loop')
 
 
 def check_nodes_from_closest(ctx, res, arm, anchor, n4, n6, site, key_field):
@@ -304,7 +362,7 @@ def rule_families(ctx, res):
                 good = (names == ['src', 'filter', 'take', 'map', 'collect'] and src[0] == 'call' and src[1] == 'table::RoutingTable::closest_nodes'
                         and is_param(strip_transparent(src[2][1]), 'target') and term_int(pl[2][1]) == 8)
                 if good:
-                    filters.setdefault(i, set()).add((pl[1][1][1], pl[3][1][1]))
+                    filters.setdefault(i, set()).add((pl[1][1], pl[3][1]))
                 out.append(True if good else 'bad-pipeline:%s' % names)
         return tuple(out)
 
@@ -326,15 +384,36 @@ def rule_families(ctx, res):
         ok = len(fs) == 1
         if ok:
             fcl, mcl = list(fs)[0]
-            fb = ctx.body(fcl)
-            res.touch(fb)
-            ss = Sym(fb)
-            ss.run()
-            cps = ss.complete_paths()
-            ok = len(cps) == 1 and cps[0].ret[0] == 'call' and cps[0].ret[1].endswith('SocketAddr::' + fam) and bool(find_calls(cps[0].ret, 'Node::addr'))
-            mb = ctx.body(mcl)
-            ms = Sym(mb)
-            ms.run()
+            want_fam = 'V4' if fam == 'is_ipv4' else 'V6'
+            try:
+                fb, ss = lib.closure_sym(ctx, fcl, res)
+
+                def classify_fam(lit, c):
+                    rel, a, b2, truth = lit
+                    def fam_call(t):
+                        t = strip_transparent(t)
+                        return isinstance(t, tuple) and t[0] == 'call' and t[1] in ('std::net::SocketAddr::is_ipv4', 'std::net::SocketAddr::is_ipv6') and bool(find_calls(t, 'Node::addr'))
+                    if rel == 'bool' and fam_call(a) and truth is not None:
+                        v4 = strip_transparent(a)[1].endswith('is_ipv4') == bool(truth)
+                        return ('fam', {'V4'} if v4 else {'V6'})
+                    if rel == 'eq' and truth is not None:
+                        for x, y in ((a, b2), (b2, a)):
+                            k = term_int(y) if isinstance(y, tuple) else None
+                            if fam_call(x) and k in (0, 1):
+                                v4 = strip_transparent(x)[1].endswith('is_ipv4') == (bool(k) == bool(truth))
+                                return ('fam', {'V4'} if v4 else {'V6'})
+                    if rel == 'variant' and isinstance(a, tuple) and a[0] == 'call' and a[1].endswith('Node::addr'):
+                        famv = {'V4': 0, 'V6': 1}
+                        if isinstance(b2, tuple) and b2[0] == 'not':
+                            return ('fam', {k for k in famv if famv[k] not in b2[1]})
+                        return ('fam', {k for k in famv if famv[k] == b2})
+                    raise Lost('family filter: unrecognised condition %s %s' % (rel, fmt(a)))
+                tabf = lib.bool_table(ss.complete_paths(), classify_fam)
+                badf, nf = tabf.compare({'fam': ['V4', 'V6']}, lambda v: v['fam'] == want_fam)
+                ok = not badf
+            except Lost:
+                ok = False
+            mb, ms = lib.closure_sym(ctx, mcl, res)
             mp = ms.complete_paths()
             ok = ok and len(mp) == 1 and bool(find_calls(mp[0].ret, 'Node::handle'))
         res.check(ok, 'TABLE', fn, 'list %s (%s) is filtered by node.addr().%s() and maps to the node handle' % (i, 'nodes' if i == '0' else 'nodes6', fam), site=b.span, key='family-filter:' + i)
